@@ -1,6 +1,150 @@
 import TantivyModel.Driver.Proto
+import TantivyModel.Model.Grammar.Q
+import TantivyModel.Model.Grammar.Safe
+/-!
+Line protocol of the C16 model.
+
+Trees travel as comma separated prefix tokens (no spaces):
+* `Q`   := `l,<field|->,<kind>,<id>` | `b,<bits>,Q` | `n,Q` | `f,<field>,Q`
+          | `s,<n>,` n × (`<-|o|a>,<-|s|m|x>,Q`)
+* `Ast` := `l,<field|->,<kind>,<id>` | `b,<bits>,Ast` | `c,<n>,` n × (`<-|s|m|x>,Ast`)
+
+Requests:
+* `build Q`                         → `<Ast of rewrite (build q)> <number of early-operand errors>`
+* `sem <o|a> <defaults> Q <docs>`   → per document `1`/`0`/`e` of the strict parser, `/`, the same
+                                      for the lenient parser; `<docs>` = valuations separated by `|`,
+                                      each a `;` separated list of true `field.id` keys (`-` = none)
+* `semq <o|a> <defaults> Q <docs>`  → per document `1`/`0` of `semQ`, or `undoc`
+* `safe <o|a> Q`                    → `1` iff `rewrite_ast` is meaning-preserving on `build q`
+                                      by the side condition `safeWith` (see the comment before `C16_rewrite_preserves_sem_counterexample`)
+-/
 namespace TantivyModel.Driver.C16
-/-- stub: the model for C16 is not built yet -/
+open TantivyModel TantivyModel.Proto TantivyModel.Grammar
+
+def occTok : Option Occur → String
+  | none => "-" | some .should => "s" | some .must => "m" | some .mustNot => "x"
+
+def parseOcc : String → Option (Option Occur)
+  | "-" => some none | "s" => some (some .should) | "m" => some (some .must)
+  | "x" => some (some .mustNot) | _ => none
+
+def parseOp : String → Option (Option BinOp)
+  | "-" => some none | "o" => some (some .or) | "a" => some (some .and) | _ => none
+
+def parseField : String → Option (Option Nat)
+  | "-" => some none
+  | s => s.toNat?.map some
+
+mutual
+def parseQ : Nat → List String → Option (Q × List String)
+  | 0, _ => none
+  | fuel + 1, toks =>
+    match toks with
+    | "l" :: f :: k :: i :: rest =>
+      match parseField f, k.toNat?, i.toNat? with
+      | some f, some k, some i => some (.leaf ⟨f, k, i⟩, rest)
+      | _, _, _ => none
+    | "b" :: bits :: rest =>
+      match bits.toNat?, parseQ fuel rest with
+      | some b, some (q, rest) => some (.boost q b, rest)
+      | _, _ => none
+    | "n" :: rest =>
+      match parseQ fuel rest with
+      | some (q, rest) => some (.neg q, rest)
+      | none => none
+    | "f" :: f :: rest =>
+      match f.toNat?, parseQ fuel rest with
+      | some f, some (q, rest) => some (.scoped f q, rest)
+      | _, _ => none
+    | "s" :: n :: rest =>
+      match n.toNat? with
+      | some n =>
+        match parseItems fuel n rest with
+        | some (items, rest) => some (.seq items, rest)
+        | none => none
+      | none => none
+    | _ => none
+def parseItems : Nat → Nat → List String → Option (List QItem × List String)
+  | 0, _, _ => none
+  | _ + 1, 0, toks => some ([], toks)
+  | fuel + 1, n + 1, toks =>
+    match toks with
+    | op :: occ :: rest =>
+      match parseOp op, parseOcc occ, parseQ fuel rest with
+      | some op, some occ, some (q, rest) =>
+        match parseItems fuel n rest with
+        | some (items, rest) => some ((op, occ, q) :: items, rest)
+        | none => none
+      | _, _, _ => none
+    | _ => none
+end
+
+def readQ (s : String) : Option Q :=
+  let toks := s.splitOn ","
+  match parseQ (toks.length + 1) toks with
+  | some (q, []) => some q
+  | _ => none
+
+mutual
+def showAst : Ast Leaf → List String
+  | .leaf l => ["l", (match l.field with | none => "-" | some f => toString f), toString l.kind, toString l.id]
+  | .boost a b => "b" :: toString b :: showAst a
+  | .clause cs => "c" :: toString cs.length :: showAstL cs
+def showAstL : List (Entry Leaf) → List String
+  | [] => []
+  | (o, a) :: rest => occTok o :: (showAst a ++ showAstL rest)
+end
+
+def parseMode : String → Option Mode
+  | "o" => some .orDefault | "a" => some .andDefault | _ => none
+
+def parseKey (s : String) : Option (Nat × Nat) :=
+  match s.splitOn "." with
+  | [f, i] => match f.toNat?, i.toNat? with
+    | some f, some i => some (f, i)
+    | _, _ => none
+  | _ => none
+
+def parseVal (s : String) : Option (List (Nat × Nat)) :=
+  if s == "-" then some [] else (s.splitOn ";").mapM parseKey
+
+def parseDocs (s : String) : Option (List (List (Nat × Nat))) :=
+  (s.splitOn "|").mapM parseVal
+
+def valOf (keys : List (Nat × Nat)) : RLeaf → Bool
+  | none => true
+  | some k => keys.contains k
+
+/-- valuation of unresolved leaves (for `semQ`): the documented meaning of a leaf -/
+def leafVal (defaults : List Nat) (keys : List (Nat × Nat)) (l : Leaf) : Bool :=
+  semL (valOf keys) (resolve defaults l)
+
 def handle : List String → String
+  | ["build", q] =>
+    match readQ q with
+    | some q => ",".intercalate (showAst (rewrite (build q))) ++ " " ++ toString (earlyCount q)
+    | none => "bad-op"
+  | ["sem", m, d, q, docs] =>
+    match parseMode m, natList d, readQ q, parseDocs docs with
+    | some m, some d, some q, some docs =>
+      let a := rewrite (build q)
+      let strict := docs.map fun keys =>
+        match strictSem m d (valOf keys) a with
+        | none => "e" | some true => "1" | some false => "0"
+      let lenient := docs.map fun keys => showBool (lenientSem m d (valOf keys) a)
+      String.join strict ++ "/" ++ String.join lenient
+    | _, _, _, _ => "bad-op"
+  | ["semq", m, d, q, docs] =>
+    match parseMode m, natList d, readQ q, parseDocs docs with
+    | some m, some d, some q, some docs =>
+      if documented q then
+        String.join (docs.map fun keys => showBool (semQ m q (leafVal d keys)))
+      else "undoc"
+    | _, _, _, _ => "bad-op"
+  | ["safe", m, q] =>
+    match parseMode m, readQ q with
+    | some m, some q => showBool (safe m (build q))
+    | _, _ => "bad-op"
   | _ => "bad-op"
+
 end TantivyModel.Driver.C16
